@@ -13,7 +13,9 @@ import (
 
 func (ro *Roles) defsReads(r *Report, rule string) {
 	w := ro.w
-	retention := w.FuncByRole("", "(*PipelineRunner).determineIfJobShouldBeRemoved", func(f *ssa.Function) bool { return recvIs(f, "PipelineRunner") && sigHas(f, []string{"int", "PipelineJob"}, []string{"bool", "string"}) })
+	retention := w.FuncByRole("", "(*PipelineRunner).determineIfJobShouldBeRemoved", func(f *ssa.Function) bool {
+		return recvIs(f, "PipelineRunner") && sigHas(f, []string{"int", "PipelineJob"}, []string{"bool", "string"})
+	})
 	listP := w.FuncByName("", "(*PipelineRunner).ListPipelines")
 	allowed := map[*ssa.Function]string{}
 	add := func(f *ssa.Function, why string) {
